@@ -11,6 +11,7 @@ import DispensoVerif.Model.ThreadId
 import DispensoVerif.Model.OpResult
 import DispensoVerif.Model.SmallVec
 import DispensoVerif.Model.OnceFn
+import DispensoVerif.Model.ConVec
 
 /-! Handlers of the dvdriver line protocol. Core Lean only. -/
 namespace Driver
@@ -35,6 +36,7 @@ structure St where
   opres : OpResult.St := OpResult.St.init
   svec : SmallVec.St := SmallVec.St.init 4
   oncefn : OnceFn.St := OnceFn.St.init
+  convec : ConVec.St := ConVec.St.init
 
 def St.init : St := {}
 
@@ -178,6 +180,64 @@ def oncefnH (st : St) (args : List String) : St × String :=
           | none => "reject")
   | _ => (st, "bad-op")
 
+/-- C32 ConcurrentVector: `convec reset` | `convec <op> <args…>`; reply `size pos live items…`;
+    `convec bidx s index` → `bucket bucketIndex bucketCapacity` -/
+def convecH (st : St) (args : List String) : St × String :=
+  match args with
+  | ["reset"] => ({ st with convec := ConVec.St.init }, "ok")
+  | opn :: rest =>
+    match ints rest with
+    | none => (st, "bad-op")
+    | some ns =>
+      if opn = "bidx" then
+        match ns with
+        | [s, i] => let b := ConVec.bucketAndSubIndex s.toNat i.toNat
+                    (st, s!"{b.bucket} {b.bucketIndex} {b.bucketCapacity}")
+        | _ => (st, "bad-op")
+      else
+      let n (i : Int) : Nat := i.toNat
+      let op? : Option ConVec.Op := match opn, ns with
+        | "mk", [] => some .mk
+        | "mkSize", [k] => some (.mkSize (n k))
+        | "mkSizeVal", [k, x] => some (.mkSizeVal (n k) x)
+        | "mkRange", xs => some (.mkRange xs)
+        | "copyCtor", [a] => some (.copyCtor (n a))
+        | "moveCtor", [a] => some (.moveCtor (n a))
+        | "assign", [o, k, x] => some (.assign (n o) (n k) x)
+        | "assignRange", o :: xs => some (.assignRange (n o) xs)
+        | "pushBack", [o, x] => some (.pushBack (n o) x)
+        | "growBy", [o, k] => some (.growBy (n o) (n k))
+        | "growByVal", [o, k, x] => some (.growByVal (n o) (n k) x)
+        | "growByRange", o :: xs => some (.growByRange (n o) xs)
+        | "growToAtLeast", [o, k] => some (.growToAtLeast (n o) (n k))
+        | "growToAtLeastVal", [o, k, x] => some (.growToAtLeastVal (n o) (n k) x)
+        | "insert1", [o, i, x] => some (.insert1 (n o) (n i) x)
+        | "insertN", [o, i, k, x] => some (.insertN (n o) (n i) (n k) x)
+        | "insertRange", o :: i :: xs => some (.insertRange (n o) (n i) xs)
+        | "erase1", [o, i] => some (.erase1 (n o) (n i))
+        | "eraseRange", [o, i, j] => some (.eraseRange (n o) (n i) (n j))
+        | "resize", [o, k] => some (.resize (n o) (n k))
+        | "resizeVal", [o, k, x] => some (.resizeVal (n o) (n k) x)
+        | "reserve", [o, k] => some (.reserve (n o) (n k))
+        | "popBack", [o] => some (.popBack (n o))
+        | "clear", [o] => some (.clear (n o))
+        | "shrinkToFit", [o] => some (.shrinkToFit (n o))
+        | "copyAssign", [a, b] => some (.copyAssign (n a) (n b))
+        | "moveAssign", [a, b] => some (.moveAssign (n a) (n b))
+        | "swap", [a, b] => some (.swap (n a) (n b))
+        | "destroy", [o] => some (.destroy (n o))
+        | "query", [o] => some (.query (n o))
+        | "cmp", [a, b] => some (.cmp (n a) (n b))
+        | _, _ => none
+      match op? with
+      | none => (st, "bad-op")
+      | some op =>
+        let (s', o) := ConVec.step st.convec op
+        ({ st with convec := s' }, match o with
+          | some r => s!"{r.size} {r.pos} {r.live}" ++ (r.items.foldl (fun acc x => acc ++ " " ++ toString x) "")
+          | none => "reject")
+  | _ => (st, "bad-op")
+
 /-- `trace begin <protocol> <params…>` starts a session; `T <event…>` feeds one trace line -/
 def traceBegin (args : List String) : Sess × String :=
   match args with
@@ -252,6 +312,7 @@ def dispatch (st : St) : List String → St × String
   | "opres" :: rest => opresH st rest
   | "svec" :: rest => svecH st rest
   | "oncefn" :: rest => oncefnH st rest
+  | "convec" :: rest => convecH st rest
   | "trace" :: "begin" :: rest =>
     let (s, r) := traceBegin rest
     ({ st with sess := s }, r)
